@@ -12,8 +12,74 @@
 import YtkProofs.Merge
 import YtkProofs.Heap
 import YtkProofs.Decisions
+import YtkProofs.Decisions2
 
 namespace Ytk.C04
+
+/-! ## decision tables regenerated from the source (extract/tables2.go) -/
+section DecisionTables2
+open Ytk.TableT
+
+/-- (i) The predicates the merge rests on, regenerated from dom/overlay.go and dom/merge.go: the ordered
+    guards of hasValue, the body of coalesce (reverse, first node with a value, else the nil leaf), the
+    body of firstValidListItem (the lists in the order given, the first long enough supplies the item)
+    and the argument order of their calls in mergeContainers / mergeListsMeld are the model's; and the
+    model's `hasValue`, `coalesceList`, `firstValidListItem` equal the functions DRIVEN BY the regenerated
+    tables, on all nodes / node lists. -/
+theorem coalesce_table_matches_model :
+    Generated.hasValueCases = hasValueTable ∧ Generated.coalesceSteps = coalesceStepsM ∧
+    Generated.firstValidListItemSteps = firstValidStepsM ∧ Generated.coalesceCalls = coalesceCallsM ∧
+    (∀ n, hasValue n = hasValueBy Generated.hasValueCases n) ∧
+    (∀ nodes, coalesceList nodes = coalesceListBy Generated.coalesceSteps nodes) ∧
+    (∀ i lists, firstValidListItem i lists = firstValidBy Generated.firstValidListItemSteps i lists) := by
+  have h1 : Generated.hasValueCases = hasValueTable := by decide +kernel
+  have h2 : Generated.coalesceSteps = coalesceStepsM := by decide +kernel
+  have h3 : Generated.firstValidListItemSteps = firstValidStepsM := by decide +kernel
+  refine ⟨h1, h2, h3, by decide +kernel, ?_, ?_, ?_⟩
+  · intro n; rw [h1]; exact hasValue_eq_table n
+  · intro nodes; rw [h2]; exact coalesceList_eq_table nodes
+  · intro i lists; rw [h3]; exact firstValidListItem_eq_table i lists
+
+/-- a node with a value, one of each kind, and the null leaf -/
+def sampleA : Node := .leaf ⟨"string", "a"⟩
+def sampleB : Node := .leaf ⟨"int", "2"⟩
+
+/-- (ii) The rule of the property on the regenerated tables: "where both have a key … otherwise B's
+    value wins unless it is null, in which case A's value is kept".  hasValue is false for a missing
+    node, for the nil leaf and for a leaf holding nil, and true for everything else — an EMPTY list or
+    container has a value; coalesce run from the regenerated statement list returns the right node when
+    it has a value, the left one when the right is null, null when both are; both merge functions call
+    it as (left, right); the tail of the longer list is taken from the left list first. -/
+theorem coalesce_table_rule :
+    (Generated.hasValueCases.map fun a => (a.cond, a.steps)) =
+      [("arg0==nil", ["return false"]), ("arg0==nilLeaf", ["return false"]),
+       ("!arg0.IsList()&&!arg0.IsContainer()&&arg0.(Leaf).Value()==nil", ["return false"]),
+       ("otherwise", ["return true"])] ∧
+    hasValueBy Generated.hasValueCases Node.null = false ∧
+    hasValueBy Generated.hasValueCases sampleA = true ∧
+    hasValueBy Generated.hasValueCases (.list []) = true ∧ hasValueBy Generated.hasValueCases (.cont []) = true ∧
+    coalesceListBy Generated.coalesceSteps [sampleA, sampleB] = sampleB ∧
+    coalesceListBy Generated.coalesceSteps [sampleA, Node.null] = sampleA ∧
+    coalesceListBy Generated.coalesceSteps [Node.null, sampleB] = sampleB ∧
+    coalesceListBy Generated.coalesceSteps [Node.null, Node.null] = Node.null ∧
+    coalesceListBy Generated.coalesceSteps [sampleA, .list []] = .list [] ∧
+    firstValidBy Generated.firstValidListItemSteps 1 [[sampleA, sampleB], [sampleB]] = sampleB ∧
+    firstValidBy Generated.firstValidListItemSteps 1 [[sampleB], [sampleA, sampleA]] = sampleA ∧
+    firstValidBy Generated.firstValidListItemSteps 5 [[sampleB], [sampleA]] = Node.null ∧
+    Generated.coalesceCalls = ["mergeListsMeld:coalesce(left,right)",
+      "mergeListsMeld:firstValidListItem(idx,left,right)", "mergeContainers:coalesce(left,right)"] := by
+  decide +kernel
+
+/-- (iii) the tables are not empty: four guards with distinct conditions ending in the final return,
+    three statements of coalesce, the three call sites -/
+theorem nonvacuous_coalesce_tables :
+    Generated.hasValueCases.length = 4 ∧ (conds Generated.hasValueCases).Nodup ∧
+    Generated.hasValueCases.getLast?.map (·.cond) = some "otherwise" ∧
+    Generated.coalesceSteps.length = 3 ∧ Generated.firstValidListItemSteps.length = 2 ∧
+    Generated.coalesceCalls.length = 3 := by
+  decide +kernel
+
+end DecisionTables2
 
 /-! ## decision tables regenerated from the source (extract/tables.go) -/
 section DecisionTables
